@@ -1213,12 +1213,17 @@ fn analyze_star_pattern(
         });
     }
 
-    // An unnamed star matches every variant, so the type is unchanged. A named star narrows
-    // to the matching variants (or never, if none carry the name).
-    let narrowed_type_id = match name {
-        None => value_type_id,
-        Some(_) if narrowed_type_ids.is_empty() => program.never(),
-        Some(_) => union_type_ids(program, narrowed_type_ids),
+    // An unnamed star matches every variant that carries fields, so when all of them do the type
+    // is unchanged. Otherwise (a named star, or a value that may also be an integer, a binary,
+    // ...) it narrows to the matching variants (or never, if there are none).
+    let every_variant_matches =
+        name.is_none() && all_sources.len() == variant_count(program, value_type_id);
+    let narrowed_type_id = if every_variant_matches {
+        value_type_id
+    } else if narrowed_type_ids.is_empty() {
+        program.never()
+    } else {
+        union_type_ids(program, narrowed_type_ids)
     };
     Ok((binding_sets, narrowed_type_id))
 }
